@@ -12,6 +12,12 @@
 (*    texts |-> Seq([teal |-> Seq(instr), R |-> label -> [na, nr],         *)
 (*                   tag |-> string])]                                     *)
 (* All texts of one recipe are run against the same `want`.                *)
+(* Differential part (C03): a text may name an earlier text of the same    *)
+(* entry in `cmp` (the same program compiled with scratch-slot             *)
+(* optimisation off, everything else equal): the sequence of stack         *)
+(* snapshots taken whenever control leaves a routine, the final contents   *)
+(* of the user-numbered slots (entry.req) and the outcome must be equal;   *)
+(* every text is also compared with text 1 on outcome and req slots.       *)
 (***************************************************************************)
 EXTENDS AVM, PyTealSem, TLC, Json, IOUtils
 
@@ -19,8 +25,8 @@ Batch == JsonDeserialize(IOEnv.BATCH_FILE)
 StepsPerAction == 64
 Fuel == 40
 
-VARIABLES tid, cid, k, phase, m, want, ctx
-vars == <<tid, cid, k, phase, m, want, ctx>>
+VARIABLES tid, cid, k, phase, m, want, ctx, hist
+vars == <<tid, cid, k, phase, m, want, ctx, hist>>
 
 \* ---- context domains ----------------------------------------------------------
 W64 == [j \in 1..WD |-> Base - 1]
@@ -98,9 +104,26 @@ Text == Entry.texts[k]
 RECURSIVE JoinS(_, _)
 JoinS(s, j) == IF j > Len(s) THEN "" ELSE s[j] \o (IF j < Len(s) THEN "," ELSE "") \o JoinS(s, j + 1)
 
+ReqSlots(e, mm) == IF "req" \in DOMAIN e THEN [j \in 1..Len(e.req) |-> MapGet(mm.sc, e.req[j], U0)] ELSE <<>>
+Snap(mm) == [out |-> MOutcome(mm), exits |-> mm.exits, req |-> ReqSlots(Entry, mm)]
+
+\* differential clause of the current text against the texts it is paired with ("" = nothing to report)
+DiffClause ==
+  LET me == Snap(m)
+      cmpk == IF "cmp" \in DOMAIN Text THEN Text.cmp ELSE 0
+  IN IF me.out.class = "inconclusive" THEN ""
+     ELSE IF cmpk > 0 /\ cmpk < k /\ hist[cmpk].out.class # "inconclusive" /\ hist[cmpk].out # me.out THEN "diff-outcome"
+     ELSE IF cmpk > 0 /\ cmpk < k /\ hist[cmpk].out.class # "inconclusive" /\ me.out.class # "fail" /\ hist[cmpk].exits # me.exits THEN "diff-exit-stack"
+     ELSE IF cmpk > 0 /\ cmpk < k /\ hist[cmpk].out.class # "inconclusive" /\ me.out.class # "fail" /\ hist[cmpk].req # me.req THEN "diff-slots"
+     ELSE IF k > 1 /\ hist[1].out.class # "inconclusive" /\ hist[1].out # me.out THEN "diff-outcome-vs-first"
+     ELSE IF k > 1 /\ hist[1].out.class # "inconclusive" /\ me.out.class # "fail" /\ hist[1].req # me.req THEN "diff-slots-vs-first"
+     ELSE ""
+
 Verdict ==
   LET g == MOutcome(m)
-      c == Compare(want, g)
+      c0 == Compare(want, g)
+      d == DiffClause
+      c == IF c0 \in {"ok", "inconclusive"} /\ d # "" THEN d ELSE c0
   IN "V|" \o ToString(tid) \o "|" \o ToString(cid) \o "|" \o ToString(k) \o "|" \o c
        \o "|" \o want.class \o "/" \o want.why \o "|" \o g.class \o "/" \o m.why
        \o "|" \o JoinS(m.ghost, 1) \o "|" \o ToString(m.steps)
@@ -110,20 +133,21 @@ Init == /\ tid \in 1..Len(Batch)
         /\ cid \in (IF "cids" \in DOMAIN Batch[tid] /\ Batch[tid].cids # <<>>
                     THEN {Batch[tid].cids[j] : j \in 1..Len(Batch[tid].cids)}
                     ELSE 0..(NCtx(Batch[tid].cx) - 1))
-        /\ k = 0 /\ phase = "start" /\ m = <<>> /\ want = <<>> /\ ctx = <<>>
+        /\ k = 0 /\ phase = "start" /\ m = <<>> /\ want = <<>> /\ ctx = <<>> /\ hist = <<>>
 
 Start == /\ phase = "start"
          /\ ctx' = MkCtx(Entry.cx, cid)
          /\ want' = SOutcome(Entry.recipe, ctx', Fuel)
          /\ k' = 1 /\ m' = M0(ctx') /\ phase' = "run"
-         /\ UNCHANGED <<tid, cid>>
+         /\ UNCHANGED <<tid, cid, hist>>
 
 Run == /\ phase = "run" /\ m.status = "run"
        /\ m' = MRun(Text.teal, Text.R, ctx, m, StepsPerAction)
-       /\ UNCHANGED <<tid, cid, k, phase, want, ctx>>
+       /\ UNCHANGED <<tid, cid, k, phase, want, ctx, hist>>
 
 Judge == /\ phase = "run" /\ m.status # "run"
          /\ PrintT(Verdict)
+         /\ hist' = Append(hist, Snap(m))
          /\ IF k < Len(Entry.texts)
             THEN k' = k + 1 /\ m' = M0(ctx) /\ UNCHANGED phase
             ELSE phase' = "done" /\ UNCHANGED <<k, m>>
@@ -137,4 +161,6 @@ Spec == Init /\ [][Next]_vars
 Refines == (phase = "run" /\ m.status # "run") =>
               Compare(want, MOutcome(m)) \in {"ok", "inconclusive"}
 NoGhost == phase = "run" => m.ghost = <<>>
+\* C03 as an invariant (replay)
+SameBehaviour == (phase = "run" /\ m.status # "run") => DiffClause = ""
 =============================================================================
